@@ -73,7 +73,7 @@ type Disk struct {
 	Fault func(kind OpKind, idx int) FaultAction
 }
 
-const defaultCap = 1 << 20
+const defaultCap = 8 << 20
 
 // New creates an empty disk.
 func New(name string) *Disk {
@@ -125,6 +125,36 @@ func (d *Disk) grow(n int64) {
 }
 
 func (d *Disk) Name() string { return d.name }
+
+// Count returns how many calls of the given kind have been started.
+func (d *Disk) Count(kind OpKind) int {
+	d.mu.Lock()
+	defer d.mu.Unlock()
+	return d.count[kind]
+}
+
+// FaultRule fails calls [From, From+Len) of one kind.
+type FaultRule struct {
+	Kind  OpKind
+	From  int
+	Len   int
+	Short bool // writes: short write then error
+}
+
+// SetFaults installs a fault plan (replaces Fault).
+func (d *Disk) SetFaults(rules []FaultRule) {
+	d.Fault = func(kind OpKind, idx int) FaultAction {
+		for _, r := range rules {
+			if r.Kind == kind && idx >= r.From && idx < r.From+r.Len {
+				if r.Short && kind == OpWrite {
+					return FaultShortErr
+				}
+				return FaultErr
+			}
+		}
+		return FaultNone
+	}
+}
 
 func (d *Disk) Close() error {
 	d.mu.Lock()
